@@ -169,7 +169,10 @@ let () =
         if not !dead then begin
           out "op" "setup";
           (match setup consts0 !ident junk !settings (nat_of_int n) (nat_of_int p) (nat_of_int m) (to_blocks b) with
-           | Ok s -> sv := Some s; dump_data s.sv_data; dump_pc s.sv_pc
+           | Ok s -> (* the harness' factorisation-call counter is global: it is not reset by a repeated setup() *)
+             let calls = (match !sv with Some o -> o.sv_calls | None -> O) in
+             let s = { s with sv_calls = calls } in
+             sv := Some s; dump_data s.sv_data; dump_pc s.sv_pc
            | Err e -> out "model_error" (err_name e); dead := true) end;
         incr opno
       | "UPDATE" ->
